@@ -47,8 +47,11 @@ def main():
         pkgdir = m.group(1) if m else None
         demos = [f for f in glob.glob(d + '/*.go')]
         for f in demos:
-            if pkgdir: shutil.copy(f, os.path.join(wt, pkgdir, os.path.basename(f)))
-        cmd_local = cmd.replace('/tmp/seed_%s' % pid, wt)
+            if pkgdir:
+                os.makedirs(os.path.join(wt, pkgdir), exist_ok=True)
+                shutil.copy(f, os.path.join(wt, pkgdir, os.path.basename(f)))
+        cmd_local = cmd.replace('/tmp/seed_%s' % pid, wt).replace('<checkout>', wt)
+        cmd_local = re.sub(r'cp (?!/)(\S+_test\.go)', 'cp %s/\\1' % d, cmd_local)
         rc1, o1 = sh(cmd_local, cwd=wt, timeout=1800)
         out['demo_with_mutant_rc'] = rc1
         out['demo_with_mutant_tail'] = o1[-400:]
